@@ -32,10 +32,12 @@ theorem decodeRRs_tie (parseIP : Bytes → Bytes) (ip6 : Bytes → PtrIP) (hP : 
       omap rrView ((genDNSEntry_decodeRRs parseIP e count p offset buffer).run s0).2)
       = Model.decodeRRs ip6 count.toNat (entryView e) p offset false
     ∧ EntryKeyed ((genDNSEntry_decodeRRs parseIP e count p offset buffer).run s0).1
-    ∧ ∀ v, ((genDNSEntry_decodeRRs parseIP e count p offset buffer).run s0).2 = .ok v →
-        v.1 = ((genDNSEntry_decodeRRs parseIP e count p offset buffer).run s0).1 := by
+    ∧ (∀ v, ((genDNSEntry_decodeRRs parseIP e count p offset buffer).run s0).2 = .ok v →
+        v.1 = ((genDNSEntry_decodeRRs parseIP e count p offset buffer).run s0).1)
+    ∧ ((genDNSEntry_decodeRRs parseIP e count p offset buffer).run s0).1.Name = e.Name
+    ∧ Good ((genDNSEntry_decodeRRs parseIP e count p offset buffer).run s0).1 := by
   rw [init_run]
-  obtain ⟨e', r, h1, h2, h3, h4⟩ := rrLoop_eq parseIP ip6 hP count p buffer ((count - 0).toNat + 1) (initE e) offset false [] 0
+  obtain ⟨e', r, h1, h2, h3, h4, h5⟩ := rrLoop_eq parseIP ip6 hP count p buffer ((count - 0).toNat + 1) (initE e) offset false [] 0
     (good_init hk) (Nat.le_refl _)
   rw [OutcomeS.run_bind, h1]
   rw [view_init] at h3
@@ -45,12 +47,12 @@ theorem decodeRRs_tie (parseIP : Bytes → Bytes) (ip6 : Bytes → PtrIP) (hP : 
   | ok v =>
     have := h4 v rfl
     simp only [OutcomeS.run_pure]
-    refine ⟨?_, keyed_of_good h2, ?_⟩
+    refine ⟨?_, keyed_of_good h2, ?_, h5, h2⟩
     · rw [← h3]; rfl
     · intro v' hv'; cases hv'; exact this
-  | err er => exact ⟨by rw [← h3]; rfl, keyed_of_good h2, fun v h => by cases h⟩
-  | panic => exact ⟨by rw [← h3]; rfl, keyed_of_good h2, fun v h => by cases h⟩
-  | hang => exact ⟨by rw [← h3]; rfl, keyed_of_good h2, fun v h => by cases h⟩
+  | err er => exact ⟨by rw [← h3]; rfl, keyed_of_good h2, (fun v h => by cases h), h5, h2⟩
+  | panic => exact ⟨by rw [← h3]; rfl, keyed_of_good h2, (fun v h => by cases h), h5, h2⟩
+  | hang => exact ⟨by rw [← h3]; rfl, keyed_of_good h2, (fun v h => by cases h), h5, h2⟩
 
 /-- **DecodeAnswers tie.**  The regenerated `DecodeAnswers` (header check, ANCOUNT, the regenerated `decodeRRs`) is
     `Model.decodeAnswers`: same entry left behind, same outcome. -/
@@ -59,12 +61,14 @@ theorem decodeAnswers_tie (parseIP : Bytes → Bytes) (ip6 : Bytes → PtrIP) (h
     (entryView ((genDNSEntry_DecodeAnswers parseIP e p offset buffer).run s0).1,
       omap rrView ((genDNSEntry_DecodeAnswers parseIP e p offset buffer).run s0).2)
       = Model.decodeAnswers ip6 (entryView e) p offset
-    ∧ EntryKeyed ((genDNSEntry_DecodeAnswers parseIP e p offset buffer).run s0).1 := by
+    ∧ EntryKeyed ((genDNSEntry_DecodeAnswers parseIP e p offset buffer).run s0).1
+    ∧ ((genDNSEntry_DecodeAnswers parseIP e p offset buffer).run s0).1.Name = e.Name
+    ∧ (Good e → Good ((genDNSEntry_DecodeAnswers parseIP e p offset buffer).run s0).1) := by
   unfold genDNSEntry_DecodeAnswers Model.decodeAnswers
   simp only [OutcomeS.run_bind_putRecv, OutcomeS.run_bind_lift, isValid_tie]
   by_cases h12 : p.length < 12
   · simp only [h12, if_true]
-    exact ⟨rfl, hk⟩
+    exact ⟨rfl, hk, trivial, id⟩
   simp only [h12, if_false]
   have han := ancount_tie p
   revert han
@@ -74,20 +78,20 @@ theorem decodeAnswers_tie (parseIP : Bytes → Bytes) (ip6 : Bytes → PtrIP) (h
     simp only [omap] at han
     rw [← han]
     simp only []
-    obtain ⟨h1, h2, h3⟩ := decodeRRs_tie parseIP ip6 hP e hk (t.toNat : Int) p offset buffer e
+    obtain ⟨h1, h2, h3, h4, h5⟩ := decodeRRs_tie parseIP ip6 hP e hk (t.toNat : Int) p offset buffer e
     rw [OutcomeS.run_bind]
     rw [Int.toNat_natCast] at h1
     rw [← h1]
-    generalize (genDNSEntry_decodeRRs parseIP e (↑t.toNat) p offset buffer).run e = R at h2 h3
+    generalize (genDNSEntry_decodeRRs parseIP e (↑t.toNat) p offset buffer).run e = R at h2 h3 h4 h5
     obtain ⟨e', r⟩ := R
     cases r with
-    | ok v => exact ⟨rfl, h2⟩
-    | err er => exact ⟨rfl, h2⟩
-    | panic => exact ⟨rfl, h2⟩
-    | hang => exact ⟨rfl, h2⟩
-  | err er => intro han; simp only [omap] at han; rw [← han]; exact ⟨rfl, hk⟩
-  | panic => intro han; simp only [omap] at han; rw [← han]; exact ⟨rfl, hk⟩
-  | hang => intro han; simp only [omap] at han; rw [← han]; exact ⟨rfl, hk⟩
+    | ok v => exact ⟨rfl, h2, h4, fun _ => h5⟩
+    | err er => exact ⟨rfl, h2, h4, fun _ => h5⟩
+    | panic => exact ⟨rfl, h2, h4, fun _ => h5⟩
+    | hang => exact ⟨rfl, h2, h4, fun _ => h5⟩
+  | err er => intro han; simp only [omap] at han; rw [← han]; exact ⟨rfl, hk, rfl, id⟩
+  | panic => intro han; simp only [omap] at han; rw [← han]; exact ⟨rfl, hk, rfl, id⟩
+  | hang => intro han; simp only [omap] at han; rw [← han]; exact ⟨rfl, hk, rfl, id⟩
 
 /-- non-vacuity, and the point of the state monad: a response with ANCOUNT 2 whose first record is `a A 10.0.0.1`
     (TTL 60) and whose second record is truncated — the call fails with `ErrInvalidLen` **and the first record is in the
